@@ -42,7 +42,7 @@ def accounting_rule(ctx, facts, cfg, rid, key, havoc, opaque=(), floor=3):
     for p in e4.probes():
         if p.get('kind') != 'write_u16' or not p['site'].startswith(key):
             continue
-        at = p['site'].split('@')[-1].split(':', 1)[-1]
+        at = p['site'].split('@')[-1]      # block and source position: two copies of one line (a helper spliced in twice) are two sites
         val = p['val']
         if val is not None and len(val.t) == 1 and val.c == 0 and next(iter(val.t)) in TRUNC_OF:
             val = TRUNC_OF[next(iter(val.t))]
@@ -51,7 +51,8 @@ def accounting_rule(ctx, facts, cfg, rid, key, havoc, opaque=(), floor=3):
             continue
         expect = p['total'] - (p['off'] - 8) - 10
         seen.setdefault(at, []).append(p['C'].bounds(val - expect))
-    for at, bs in sorted(seen.items()):
+    for site_, bs in sorted(seen.items()):
+        at = site_.split(':', 1)[-1]
         los = [b[0] for b in bs]
         his = [b[1] for b in bs]
         proved = all(b == (0, 0) for b in bs)
@@ -247,6 +248,26 @@ def names_on_every_path_rule(ctx, facts, cfg, rid, key, name_calls, who):
 
 
 # ------------------------------------------------------------------------------------------------ fixed parts
+def _linear(e):
+    """(sorted tuple of (leaf, coefficient), constant) for an expression built from +, checked +, casts and constants; None otherwise"""
+    if e[0] == 'const' and isinstance(e[1], int):
+        return ((), e[1])
+    if e[0] == 'cast':
+        return _linear(e[2])
+    if e[0] == 'field' and len(e) > 2 and isinstance(e[2], tuple):
+        return _linear(e[2])
+    if e[0] == 'binop' and e[1].startswith(('Add', 'Sub')):
+        a, b = _linear(e[2]), _linear(e[3])
+        if a is None or b is None:
+            return None
+        sign = 1 if e[1].startswith('Add') else -1
+        terms = dict(a[0])
+        for k, c in b[0]:
+            terms[k] = terms.get(k, 0) + sign * c
+        return (tuple(sorted((k, c) for k, c in terms.items() if c)), a[1] + sign * b[1])
+    return (((repr(e), 1),), 0)
+
+
 def fixed_parts_rule(ctx, facts, cfg, rid, key):
     """Question arm copies exactly 4 bytes, MX arm copies header + 2, SOA copies 20 behind the second name; second SOA name starts where the first ended."""
     f = facts.fn(key)
@@ -289,7 +310,12 @@ def fixed_parts_rule(ctx, facts, cfg, rid, key):
                 elif end[0] == 'binop' and end[1] == 'Add' and end[3][0] == 'const' and start == end[2]:
                     lens.append((end[3][1], t['at']))
                 else:
-                    lens.append((None, t['at']))
+                    # end - start as linear forms over the non-constant leaves: constant when the symbolic parts cancel
+                    le_, ls_ = _linear(end), _linear(start)
+                    if le_ is not None and ls_ is not None and le_[0] == ls_[0]:
+                        lens.append((le_[1] - ls_[1], t['at']))
+                    else:
+                        lens.append((None, t['at']))
     consts = sorted(x for x, _ in lens if x is not None)
     want = sorted([pol['question_fixed'], H, H + pol['mx_name_at'], H, pol['soa_fixed']])
     ok = consts == want
